@@ -77,6 +77,8 @@ def place_state(sim, sched, name, state, rng=None):
         return sim.add_job(name, phase="finished", exit=1, sched=sched)
     if state == "cancelled":
         return sim.add_job(name, phase="cancelled", sched=sched)
+    if state == "sge_error":
+        return sim.add_job(name, phase="pending", sched=sched, code="Eqw")  # queued in error state: will never run
     raise ValueError(state)
 
 
@@ -91,6 +93,10 @@ def backend_view(sim, tracked, sched, accounting=True):
             out[name] = "unknown"
             continue
         ph = j["phase"]
+        if sched == "slurm" and j.get("purged") and accounting and j.get("acct"):
+            # gone from the controller; the (lagging) accounting database is all the scheduler says about it
+            out[name] = {"pending": "submitted", "running": "running"}.get(j["acct"]["phase"], "failed")
+            continue
         if sched == "slurm" and j.get("in_queue") and ph == "cancelled" and not j.get("code"):
             out[name] = "cancelled"  # still listed by the live queue as CA: the live queue wins over a stale accounting record
             continue
@@ -98,6 +104,9 @@ def backend_view(sim, tracked, sched, accounting=True):
             # still listed by the live queue (e.g. COMPLETING) although accounting already knows the end:
             # the live queue wins
             out[name] = {"CG": "running", "R": "running", "PD": "submitted"}[j["code"]]
+            continue
+        if sched == "sge" and j.get("code") and ("E" in j["code"] or "d" in j["code"]):
+            out[name] = "unknown"  # error state (Eqw) / deletion registered: gwf takes the file-based decision
             continue
         if ph == "pending":
             out[name] = "submitted"
